@@ -8,7 +8,7 @@ INVARIANT PrecLaw
 INVARIANT PairLaw
 INVARIANT Emit
 CONSTANTS
-  K = 9999
+  K = 30000
   PAD = 4
   PRINT = TRUE
   PRINTK = 2000
